@@ -347,6 +347,12 @@ def _derives_unchanged(binc, sup, node, op, target_call, depth=0):
         return True
     cf = fn_of(ct) or {}
     onode = (tr.origin_node[0], tr.origin[1])
+    if cf.get("def") == "std::result::Result::<T, E>::map" and ct["args"] and is_place(ct["args"][0]) and not ct["dest"]["pr"]:
+        # `r.map(drop)` on a Result<(), E>: the only value of `()` is `()`, and the error is untouched
+        ob_ = sup.body_of(onode)
+        ity, oty = ob_.local_ty(ct["args"][0]["p"]["l"]), ob_.local_ty(ct["dest"]["l"])
+        if ity == oty and ity.startswith("std::result::Result<(), "):
+            return _derives_unchanged(binc, sup, onode, ct["args"][0], target_call, depth + 1)
     if cf.get("def") in _IDENTITY_COMBINATORS and ct["args"]:
         cls = cf.get("closures", [])
         if cf["def"].endswith("inspect_err") or (cls and all(_closure_returns_param(binc, c) for c in cls)):
@@ -587,7 +593,8 @@ def r16_1(ctx):
         tests = [kt for kt in kind_tests(sup) if kt.named() == ["BrokenPipe"]]
         examined = False
         for kt in tests:
-            ktr = strace_deep(sup, kt.kind_node, kt.kind_call["args"][0], extra=_RESULT_VIEWS)
+            # (the error of a Result is the same error after `.map(..)`, which only touches the Ok payload)
+            ktr = strace_deep(sup, kt.kind_node, kt.kind_call["args"][0], extra=tuple(_RESULT_VIEWS) + ("std::result::Result::<T, E>::map",))
             if ktr.origin and ktr.origin[0] == "call" and ktr.origin[2] is it_ and any(s_[0] == "downcast" and s_[1] == "Err" for s_ in ktr.steps):
                 examined = True
                 # when walking back from the return value found no check function (the result went through a closure run
